@@ -131,7 +131,7 @@ def main():
             summ, bad = _replay(vh, pool, behs, run.seed, racing)
             run.count(summ["compares"])
             run.cov["traces_validated_against_impl"] += summ["runs"] + summ["racing_runs"]
-            run.cov.setdefault("replay", {})[label] = {k: summ[k] for k in ("behaviours", "runs", "racing_runs", "compares", "failed", "row_order_compares", "sort_variants") if k in summ}
+            run.cov.setdefault("replay", {})[label] = {k: summ[k] for k in ("behaviours", "runs", "racing_runs", "compares", "failed", "row_order_compares", "binned_stream_vs_plain_compares", "sort_variants") if k in summ}
             ordered_cls = {d["cls"] for o in bad if o["mode"] == "final" for d in o["diffs"]}
             for o in bad:
                 for d in o["diffs"]:
